@@ -18,6 +18,8 @@ Line-protocol handler for C18.  Core-only.
              `uv=ok` (`uvValid` in exact arithmetic on the float outputs)
     atlas  RES r T n (6 rationals)*  → `uv=ok` iff `uvValid 0 1`
     pack   B b R .. N k (A area M m (6 rationals)*)*  → the packed UVs (exact) or `panic`
+    circle P p N n (len x y)*        → `ok` iff the real CircleBoundary/PNormBoundary placement is within 1e-12 of
+           the arc-length model `runSums`/`arcParams` (cos/sin/pow from libm: validation only)
     mapfn  E|N Q p WANT w R q U uv-triangle P 3d-triangle → `ok` iff the returned triangle
            contains `p` and `q` is the barycentric interpolation (= `WANT`); exact for `E`,
            within 1e-7 for `N` (float arithmetic: validation)
@@ -121,7 +123,10 @@ def handleCharts (ws : Toks) : Option String := do
         let part := all == sortBy triLt inp
         let discs := cs.zipIdx.map fun (c, i) => (s!"chart{i}-not-disc(n={c.length},chi={euler c})", isDisc c)
         let nonEmpty := cs.zipIdx.map fun (c, i) => (s!"chart{i}-empty", !c.isEmpty)
-        some (verdict ([("not-a-partition", part)] ++ nonEmpty ++ discs))
+        -- the precondition of the property (and of `growth_keeps_disc_partial`): the input is an oriented
+        -- manifold, possibly with boundary, without degenerate faces
+        let inputOK := noDegenerate inp && orientedEdges inp && (verts inp).all (linkOK inp)
+        some (verdict ([("generator-input-not-a-manifold", inputOK), ("not-a-partition", part)] ++ nonEmpty ++ discs))
     | _ => none
   | _ => none
 
@@ -347,6 +352,43 @@ def handleMapFn (ws : Toks) : Option String := do
   | [_, status] => some ("FAIL status=" ++ status)
   | _ => none
 
+/-! ### circle (libm: validation only) -/
+
+partial def parseTriples (ws : Toks) (acc : Array (Float × Float × Float)) : Option (Array (Float × Float × Float)) :=
+  match ws with
+  | [] => some acc
+  | a :: b :: c :: r => do
+    let a ← floatOfHex a
+    let b ← floatOfHex b
+    let c ← floatOfHex c
+    parseTriples r (acc.push (a, b, c))
+  | _ => none
+
+def handleCircle (ws : Toks) : Option String := do
+  match ws with
+  | "P" :: p :: "N" :: n :: rest =>
+    match n.toNat? with
+    | none => some ("FAIL status=" ++ n)
+    | some k =>
+      if rest.length ≠ 3 * k then none else
+      let tr ← parseTriples rest #[]
+      let lens := tr.toList.map (·.1)
+      let tot := lens.foldl (· + ·) 0.0
+      let cums := runSums 0.0 lens
+      let pi : Float := 3.141592653589793
+      let ok := (cums.zip tr.toList).all fun (cur, (_, gx, gy)) =>
+        let theta := 2 * pi * cur / tot
+        let cx := Float.cos theta
+        let cy := Float.sin theta
+        let (mx, my) :=
+          if p == "4" then
+            let nrm := Float.pow (Float.pow cx.abs 4 + Float.pow cy.abs 4) (1 / 4)
+            (cx * (1 / nrm), cy * (1 / nrm))
+          else (cx, cy)
+        (mx - gx).abs ≤ 1e-12 && (my - gy).abs ≤ 1e-12
+      some (if ok then "ok" else "FAIL placement-differs-from-arclength-model")
+  | _ => none
+
 def handleAll (ws : List String) : Option String :=
   match ws with
   | "grow" :: r => handleGrow r
@@ -357,6 +399,7 @@ def handleAll (ws : List String) : Option String :=
   | "atlas" :: r => handleAtlas r
   | "pack" :: r => handlePack r
   | "mapfn" :: r => handleMapFn r
+  | "circle" :: r => handleCircle r
   | _ => none
 
 end M3d.Drv.C18
